@@ -148,6 +148,65 @@ func ruleExactLength(r *Report) {
 	if n == 0 {
 		r.Missing(rule, rule+"/sites", "no payload buffer allocation found")
 	}
+	// a record is handed out only behind the exact-length read (or as the nil record): no side path may return data
+	for _, fn := range p.FuncsOfPkg("recordio") {
+		allocs := CallsIn(fn, Keys("recordio.allocateRecordBuffer", "recordio.allocateRecordBufferPooled"))
+		if len(allocs) == 0 {
+			continue
+		}
+		key := ef0uniq(rule + "/" + FuncKey(fn) + "/data-only-behind-exact-read")
+		removed := map[Edge]bool{}
+		eachInstr(fn, func(s Site) {
+			c, ok := s.Instr.(*ssa.Call)
+			if !ok {
+				return
+			}
+			k := CalleeKey(c)
+			if k == "io.ReadFull" || strings.HasSuffix(k, "ReaderAt.ReadAt") {
+				// only reads into the payload buffer count
+				isPayload := false
+				for _, a := range allocs {
+					for _, rf := range *a.Instr.(ssa.Value).Referrers() {
+						if ex, ok := rf.(*ssa.Extract); ok && ex.Index == 1 {
+							for _, arg := range c.Call.Args {
+								if arg == ssa.Value(ex) {
+									isPayload = true
+								}
+							}
+						}
+					}
+				}
+				if isPayload {
+					succ, _ := errorEdges(s)
+					for _, e := range succ {
+						removed[e] = true
+					}
+				}
+			}
+		})
+		// nil-record edge: If on the header reader's nil flag
+		for _, h := range CallsIn(fn, func(k string) bool { return strings.HasPrefix(k, "recordio.readRecordHeaderV") }) {
+			for _, rf := range *h.Instr.(ssa.Value).Referrers() {
+				if ex, ok := rf.(*ssa.Extract); ok && ex.Index == 2 {
+					t, _ := condEdges(fn, func(c ssa.Value) bool { return c == ssa.Value(ex) })
+					for _, e := range t {
+						removed[e] = true
+					}
+				}
+			}
+		}
+		bad := false
+		for _, nr := range nilReturns(fn) {
+			if siteReachable(nr, removed) {
+				bad = true
+			}
+		}
+		if bad {
+			r.Bad(rule, key, fn.Pos(), "a record can be returned successfully without passing the exact-length payload read (e.g. copied out of the header look-ahead buffer): a cut file yields a shortened, zero-padded payload")
+		} else {
+			r.OK(rule, key, fn.Pos(), "data is returned only behind the exact-length read or as the nil record")
+		}
+	}
 	// the length selection itself
 	for _, k := range []string{"recordio.allocateRecordBuffer", "recordio.allocateRecordBufferPooled"} {
 		fn := r.NeedFunc(rule, k)
